@@ -44,7 +44,9 @@ func c08Programs() map[string]e3Spec {
 			"TestB": {Calls: []e3Call{snap("ext")}},
 			"TestSub": {Calls: []e3Call{{API: "ssnap", Cfg: "default"}, {API: "ssnap", Cfg: "default"}}, Subs: []e3Sub{{Name: "sub", Calls: []e3Call{{API: "ssnap", Cfg: "default"}}},
 				// subtests whose names hold characters outside [0-9A-Za-z_]: their standalone files belong to the (skipped) ancestor all the same
-				{Name: "en-GB", Calls: []e3Call{{API: "ssnap", Cfg: "default"}}}, {Name: "v1.2=x", Calls: []e3Call{{API: "sjson", Cfg: "default"}}}}},
+				{Name: "en-GB", Calls: []e3Call{{API: "ssnap", Cfg: "default"}}}, {Name: "v1.2=x", Calls: []e3Call{{API: "sjson", Cfg: "default"}}},
+				// ... and one with characters some file systems reserve, which skips ITSELF in some cells
+				{Name: "q?page=2:<a>|*", Calls: []e3Call{{API: "ssnap", Cfg: "default"}, {API: "sjson", Cfg: "default"}}}}},
 			"TestAB": {Calls: []e3Call{{API: "sjson", Cfg: "default"}}},
 			"Test1":  {Calls: []e3Call{snap("default")}},
 		},
@@ -78,9 +80,9 @@ func c08Programs() map[string]e3Spec {
 }
 
 var c08Patterns = []string{"", "TestA", "^TestA$", "TestA$", "A", "B", "Sub", "sub", "x", "^x$", "1", "TestA/x", "TestA/^x$", "/x", "A/x/y", "TestA|TestB",
-	"TestA/x|TestB", "^Test(A|B)$", "Test[AB]", ".", "TestZ", "NoSnap", "NoSnap|TestA$", "_-_1", "TestZ|sub"}
+	"TestA/x|TestB", "^Test(A|B)$", "Test[AB]", ".", "TestZ", "NoSnap", "NoSnap|TestA$", "_-_1", "TestZ|sub", "TestAB/x", "TestSub/sub"}
 
-var c08SkipCandidates = []string{"TestA", "TestB", "TestSub", "TestA/x", "TestB/x", "TestA/v1", "TestA/v1.1", "TestA/v1#x", "TestB/y", "TestC/only", "TestAB/x"}
+var c08SkipCandidates = []string{"TestA", "TestB", "TestSub", "TestA/x", "TestB/x", "TestA/v1", "TestA/v1.1", "TestA/v1#x", "TestB/y", "TestC/only", "TestAB/x", "TestSub/q?page=2:<a>|*"}
 
 // c08ApplySkips returns a copy of the program with the skip calls planted.
 func c08ApplySkips(prog e3Spec, skips map[string]string) e3Spec {
